@@ -104,6 +104,12 @@ func wrappersB() []wrapB {
 		{"nfe-x", true, "", func(id int, body, hoisted []js.Stmt) ([]js.Stmt, []js.Stmt) {
 			return []js.Stmt{iife(js.Fn("x", nil, fnBody(body, hoisted)...))}, nil
 		}},
+		{"fundecl-x", true, "", func(id int, body, hoisted []js.Stmt) ([]js.Stmt, []js.Stmt) {
+			// function x() { OPS }  x();  - a FunctionDeclaration creates no binding of
+			// its own name inside itself: the operations act on the enclosing x
+			decl := &js.FuncDecl{Fn: js.Fn("x", nil, fnBody(body, hoisted)...)}
+			return []js.Stmt{tryLog(js.Log(js.S("call-x"), js.CallE(js.Id("x")))), observeName("afterdecl", "x")}, []js.Stmt{decl}
+		}},
 		{"param-x", true, "", func(id int, body, hoisted []js.Stmt) ([]js.Stmt, []js.Stmt) {
 			return []js.Stmt{iife(js.Fn("", []string{"x"}, fnBody(body, hoisted)...), js.S("arg"))}, nil
 		}},
